@@ -2817,6 +2817,13 @@ impl RaftNode {
 
         let entry = LogEntry::codebook(term, index, CodebookChange::replace(snapshot));
         persistent.log.push(entry);
+
+        // Persist to WAL if enabled, like any other entry the leader accepts
+        if let Err(e) = self.persist_log_entry(&persistent.log[persistent.log.len() - 1]) {
+            persistent.log.pop(); // Rollback on failure
+            return Err(e);
+        }
+
         drop(persistent);
 
         Ok(index)
